@@ -14,6 +14,13 @@
   cannot be (it needs llama.cpp and a model file), so this skeleton is its tie: the two runners
   differ only in the head (where `numPredicted++` sits and how EOS/piece are obtained); the
   `outputTail` and the two helper functions are literally the same statements.
+    * `…Handler`     ↔ `handlerLines` (one `content` line per chunk; on close ONE final object with
+                        `DoneReason: seq.doneReason` verbatim, `PromptEvalCount: seq.numPromptInputs`,
+                        `EvalCount`; on a cancelled request `close(seq.quit)` and no final object) and the
+                        request mapping `numPredict: req.Options.NumPredict, stop: req.Options.Stop`.
+                        The ollamarunner handler is executed against the model (L1, command `handler`); the
+                        llamarunner handler differs in the `NewSequence` parameters and reports
+                        `EvalCount: seq.numDecoded` (incremented once per sampled token, like `numPredicted`).
   A change of the call order, of a condition, of a reason, or a new statement touching the output
   state in either runner makes these theorems fail.
 -/
@@ -46,6 +53,9 @@ def ollamaHead : List String := [
 
 def llamaHead : List String := [
   "processBatch: range s.seqs {",
+  "processBatch: seq.numDecoded += 1",
+  "processBatch: if seq.numDecoded == 1 {",
+  "processBatch: }",
   "processBatch: if seq.embeddingOnly {",
   "processBatch: s.removeSequence(i, llm.DoneReasonStop)",
   "processBatch: continue",
@@ -96,10 +106,62 @@ def fns : List String := [
   "flushPending: return false",
   "flushPending: }"]
 
+/-- the request → Sequence mapping of the ollamarunner handler -/
+def ollamaHandlerOpen : List String := [
+  "completion: seq, err := s.NewSequence(req.Prompt, req.Images, NewSequenceParams{ numPredict: req.Options.NumPredict, stop: req.Options.Stop, numKeep: int32(req.Options.NumKeep), sampler: sampler, embedding: false, })"]
+
+/-- the request → Sequence mapping of the llamarunner handler -/
+def llamaHandlerOpen : List String := [
+  "completion: seq, err := s.NewSequence(req.Prompt, req.Images, NewSequenceParams{ numPredict: req.Options.NumPredict, stop: req.Options.Stop, numKeep: req.Options.NumKeep, samplingParams: &samplingParams, embedding: false, })"]
+
+/-- shared by both handlers: error replies, the read loop, one `content` line per chunk, cancel ⇒ quit -/
+def handlerLoop : List String := [
+  "completion: if err != nil {",
+  "completion: http.Error(w, fmt.Sprintf(\"Failed to create new sequence: %v\", err), http.StatusInternalServerError)",
+  "completion: return",
+  "completion: }",
+  "completion: if !found {",
+  "completion: http.Error(w, \"could not find an available sequence\", http.StatusInternalServerError)",
+  "completion: return",
+  "completion: }",
+  "completion: for  {",
+  "completion: select {",
+  "completion: case <-r.Context().Done():",
+  "completion: close(seq.quit)",
+  "completion: return",
+  "completion: case content, ok := <-seq.responses:",
+  "completion: if ok {",
+  "completion: if err := json.NewEncoder(w).Encode(&llm.CompletionResponse{ Content: content, }); err != nil {",
+  "completion: close(seq.quit)",
+  "completion: return",
+  "completion: }"]
+
+def ollamaHandlerFinal : List String := [
+  "completion: } else {",
+  "completion: if err := json.NewEncoder(w).Encode(&llm.CompletionResponse{ Done: true, DoneReason: seq.doneReason, PromptEvalCount: seq.numPromptInputs, PromptEvalDuration: seq.startGenerationTime.Sub(seq.startProcessingTime), EvalCount: seq.numPredicted, EvalDuration: time.Since(seq.startGenerationTime), }); err != nil {",
+  "completion: }",
+  "completion: return",
+  "completion: }",
+  "completion: }",
+  "completion: }"]
+
+def llamaHandlerFinal : List String := [
+  "completion: } else {",
+  "completion: if err := json.NewEncoder(w).Encode(&llm.CompletionResponse{ Done: true, DoneReason: seq.doneReason, PromptEvalCount: seq.numPromptInputs, PromptEvalDuration: seq.startGenerationTime.Sub(seq.startProcessingTime), EvalCount: seq.numDecoded, EvalDuration: time.Since(seq.startGenerationTime), }); err != nil {",
+  "completion: }",
+  "completion: return",
+  "completion: }",
+  "completion: }",
+  "completion: }"]
+
 theorem ollama_skeleton_matches :
-    OllamaVerif.Generated.C14.ollama = limitCheck ++ ollamaHead ++ outputTail ++ fns := by decide
+    OllamaVerif.Generated.C14.ollama =
+      limitCheck ++ ollamaHead ++ outputTail ++ fns ++ ollamaHandlerOpen ++ handlerLoop ++ ollamaHandlerFinal := by
+  decide +kernel
 
 theorem llama_skeleton_matches :
-    OllamaVerif.Generated.C14.llama = limitCheck ++ llamaHead ++ outputTail ++ fns := by decide
+    OllamaVerif.Generated.C14.llama =
+      limitCheck ++ llamaHead ++ outputTail ++ fns ++ llamaHandlerOpen ++ handlerLoop ++ llamaHandlerFinal := by
+  decide +kernel
 
 end OllamaVerif.Tie.C14
